@@ -368,6 +368,64 @@ def selective_attachment_case(ck, rng, stats):
     sb.cleanup()
 
 
+def environment_case(ck, rng, stats):
+    """The process environment of the children is the one mdsort was started with - whatever mdsort did to its own in between
+    (date conditions on a zone abbreviation set TZ for a moment) - and so is the working directory."""
+    sb = mdrun.Sandbox()
+    src = sb.maildir('src')
+    helper = common.rec_helper()
+    hout = os.path.join(sb.root, 'helper-out'); os.makedirs(hout)
+    tz = rng.choice([None, '', '', 'UTC', 'Europe/Stockholm', 'EST5EDT', ':UTC'])
+    extra = {'VERIF_HELPER_OUT': hout, 'VERIF_HELPER_EXIT': '0', 'X_EMPTY': '', 'MDSORT_X': 'a b=c'}
+    n = rng.randrange(1, 5)
+    dates = [rng.choice([b'Sat, 02 Mar 2019 10:00:00 GMT', b'Sat, 02 Mar 2019 10:00:00 EST', b'Sat, 02 Mar 2019 10:00:00 +0100 (CET)',
+                         b'Sat, 02 Mar 2019 10:00:00 UT', b'Sat, 02 Mar 2019 10:00:00 +0000', b'2 Mar 2019 10:00:00 CET', None]) for _ in range(n)]
+    for d in dates:
+        sb.add(src, 'new', (b'Date: %s\n' % d if d else b'') + b'To: a\n\nbody\n')
+    how = rng.choice(['exec', 'command', 'both'])
+    cond = rng.choice([b'( date > 1 hours or all )', b'( date header > 1 hours or all )', b'all'])
+    if how == 'exec':
+        rule = b'match %s exec { "%s" "e" }' % (cond, helper.encode())
+    elif how == 'command':
+        rule = b'match %s and command { "%s" "c" } flags "T"' % (cond, helper.encode())
+    else:
+        rule = b'match %s and command { "%s" "c" } exec stdin { "%s" "e" }' % (cond, helper.encode(), helper.encode())
+    conf = sb.write_conf(b'maildir "%s" {\n\t%s\n}\n' % (src.encode(), rule))
+    env = sb.env(extra)
+    if tz is None:
+        env.pop('TZ', None)
+    else:
+        env['TZ'] = tz
+    exe = os.path.join(common.scratch_build('plain'), 'mdsort')
+    import subprocess
+    r = subprocess.run([exe, '-f', conf], cwd=sb.root, env=env, capture_output=True, timeout=60)
+    stats['runs'] += 1; stats['environment'] = stats.get('environment', 0) + 1
+    calls = common.helper_calls(hout)
+    want = sorted(('%s=%s' % kv).encode() for kv in env.items())
+    rep = {'config': open(conf, 'rb').read().decode(errors='replace'), 'messages': [d.decode() if d else None for d in dates], 'exit': r.returncode,
+           'environment': env, 'stderr': r.stderr[-300:].decode(errors='replace')}
+    bad = None
+    if len(calls) != n * (2 if how == 'both' else 1):
+        bad = 'the command ran %d times for %d messages' % (len(calls), n)
+    for i, c in enumerate(calls):
+        if bad:
+            break
+        if c['environ'] is None:
+            bad = 'the helper could not record its environment'
+        elif sorted(c['environ']) != want:
+            got = set(c['environ']); w = set(want)
+            bad = 'call %d: the environment of the child differs from the one mdsort was started with: missing %r, unexpected %r' % (i, sorted(w - got), sorted(got - w))
+        elif os.path.realpath(c['cwd']) != os.path.realpath(sb.root.encode() if isinstance(c['cwd'], bytes) else sb.root):
+            bad = 'call %d: working directory %r instead of %r' % (i, c['cwd'], sb.root)
+    if bad:
+        stats['viol'] += 1
+        if stats['viol'] <= 4:
+            ck.violation('environment of commands (TZ %r, %s, %s): %s' % (tz, how, cond.decode(), bad), rep)
+    else:
+        stats['nontrivial'] += 1
+    sb.cleanup()
+
+
 def run(ck):
     stats = dict(runs=0, nontrivial=0, viol=0)
     samples = []
@@ -383,6 +441,7 @@ def run(ck):
             multi_exec_case(ck, ck.rng, stats)
         if i % 3 == 2:
             selective_attachment_case(ck, ck.rng, stats)
+            environment_case(ck, ck.rng, stats)
         if len(ck.violations) > 6:
             break
     ck.coverage.update({
@@ -392,7 +451,7 @@ def run(ck):
                 'placed after nothing / label / add-header / flag / move and before nothing / move / label, helper exit 0 / 3 / 127 / SIGKILL, in maildir and stdin '
                 '(a third of the moves / flags before the exec across file systems); rules with 2-4 exec actions of mixed stdin options (and a command condition): every child gets what its own action asks for; attachment blocks whose rule selects some of 2-6 parts (exec stdin / stdin body, a quarter with a failing command followed by a move); '
                 'mode, over plain, base64, quoted-printable and multipart/alternative bodies; command conditions with exit 0/1/7/127/SIGTERM; attachment blocks over '
-                'generated MIME trees. non-trivial = the command ran exactly once (or the parts were compared); counted per run',
+                'generated MIME trees; runs over 1-4 messages with date conditions on zone abbreviations started with TZ unset / empty / set: environment and working directory of every child equal those mdsort itself was started with. non-trivial = the command ran exactly once (or the parts were compared); counted per run',
         'samples': samples,
         'traces_validated_against_impl': stats['runs'],
     })
